@@ -80,6 +80,11 @@ func buildWireFile(c wireCase) ([]byte, ref.FileLayout, ref.EncStats, error) {
 		fs.Blocks = append(fs.Blocks, ref.Block{Count: int64(n), Payload: payload})
 		i += n
 	}
+	for ; bi < len(c.PerBlock); bi++ {
+		if c.PerBlock[bi] == 0 {
+			fs.Blocks = append(fs.Blocks, ref.Block{}) // an empty block after the last record
+		}
+	}
 	file, lay, err := ref.WriteFile(fs)
 	return file, lay, enc.Stats, err
 }
@@ -321,7 +326,8 @@ func drawWireCase(t *rapid.T, o *gen.WireOpts) wireCase {
 	}
 	nb := gen.UniformRange(t, "nsplit", 0, 3)
 	for i := 0; i < nb; i++ {
-		c.PerBlock = append(c.PerBlock, rapid.IntRange(1, 3).Draw(t, "perblock"))
+		// 0: a block holding no records (a writer flushing on a timer)
+		c.PerBlock = append(c.PerBlock, rapid.SampledFrom([]int{0, 1, 1, 2, 2, 3}).Draw(t, "perblock"))
 	}
 	c.Codec = rapid.SampledFrom([]string{"null", "deflate", "snappy", "null", "deflate", "snappy", ""}).Draw(t, "codec")
 	c.Sync = rapid.SliceOfN(rapid.Byte(), 16, 16).Draw(t, "sync")
